@@ -49,6 +49,17 @@ type numParts[T any] struct {
 	V T `@(Sign? Tok (Sign Tok)?)`
 }
 
+// numList: entries in a list, each a number followed by an optional part that starts like the list's separator --
+// the attempt at the optional part is abandoned one token in, and the conversion error of the entry is raised when
+// the entry completes: it is the error of the parse, not the abandoned attempt's
+type numList[T any] struct {
+	Entries []*numEntry[T] `@@ ( ";" @@ )*`
+}
+type numEntry[T any] struct {
+	N    T      `@Tok`
+	Unit string `( ";" @"unit" )?`
+}
+
 type numScalar[T any] struct {
 	V T `@Tok`
 }
@@ -157,6 +168,7 @@ func mkNumKind[T any](name, class string, bits int) numKind {
 		pQuoted *participle.Parser[numQuoted[T]]
 		pQuoSl  *participle.Parser[numQuotedSlice[T]]
 		pParts  *participle.Parser[numParts[T]]
+		pList   *participle.Parser[numList[T]]
 	)
 	opts := []participle.Option{participle.Lexer(c17Lex), participle.Elide("WS")}
 	return numKind{name: name, class: class, bits: bits, run: func(shape, input string) (res numRes) {
@@ -292,6 +304,17 @@ func mkNumKind[T any](name, class string, bits int) numKind {
 				if err == nil {
 					res.vals = fieldVals(reflect.ValueOf(ast).Elem().Field(0))
 				}
+			case "listed":
+				if pList == nil {
+					pList = participle.MustBuild[numList[T]](opts...)
+				}
+				ast, err := pList.ParseString("f", input)
+				res.err = err
+				if err == nil {
+					for _, e := range ast.Entries {
+						res.vals = append(res.vals, fieldVals(reflect.ValueOf(e).Elem().Field(0))...)
+					}
+				}
 			case "after":
 				if pAfter == nil {
 					pAfter = participle.MustBuild[numAfter[T]](opts...)
@@ -354,6 +377,8 @@ func (c *c17Case) input() string {
 		return strings.Join(c.Texts, " ")
 	case "signed", "signedptr":
 		return c.Texts[0] + c.Spaces + c.Texts[1]
+	case "listed":
+		return strings.Join(c.Texts, c.Spaces+";"+c.Spaces)
 	case "quoted", "quotedslice":
 		var parts []string
 		for _, t := range c.Texts {
@@ -565,7 +590,7 @@ func checkC17One(c *c17Case, r *vstat.Run) outcome {
 	// expected
 	var wants []numWant
 	switch c.Shape {
-	case "slice", "slicecap", "quotedslice":
+	case "slice", "slicecap", "quotedslice", "listed":
 		for _, t := range c.Texts {
 			wants = append(wants, numExpect(k, t))
 		}
@@ -642,7 +667,7 @@ func checkC17One(c *c17Case, r *vstat.Run) outcome {
 		return violationf("error-type", "%s: error %v (%T) is not a participle.Error", desc, res.err, res.err)
 	}
 	first := toks[0]
-	if c.Shape == "slice" || c.Shape == "twice" || c.Shape == "quotedslice" {
+	if c.Shape == "slice" || c.Shape == "twice" || c.Shape == "quotedslice" || c.Shape == "listed" {
 		first = toks[firstBad] // every element is a capture of its own, located at the failing one
 	}
 	if perr.Position() != first.Pos {
@@ -731,7 +756,7 @@ func genNumText(t *rapid.T) (string, bool) {
 func TestC17(t *testing.T) {
 	runProp(t, "C17", c17Rule, func(t *rapid.T, r *vstat.Run) {
 		k := numKinds[rapid.IntRange(0, len(numKinds)-1).Draw(t, "kind")]
-		c := &c17Case{Kind: k.name, Shape: rapid.SampledFrom([]string{"scalar", "scalar", "ptr", "slice", "slicecap", "signed", "signedptr", "nested", "twice", "padded", "outer", "after", "negated", "quoted", "quotedslice", "parts"}).Draw(t, "shape")}
+		c := &c17Case{Kind: k.name, Shape: rapid.SampledFrom([]string{"scalar", "scalar", "ptr", "slice", "slicecap", "signed", "signedptr", "nested", "twice", "padded", "outer", "after", "negated", "quoted", "quotedslice", "parts", "listed"}).Draw(t, "shape")}
 		nt := false
 		switch c.Shape {
 		case "slice", "slicecap":
@@ -741,6 +766,17 @@ func TestC17(t *testing.T) {
 				c.Texts = append(c.Texts, s)
 				nt = nt || b
 			}
+		case "listed":
+			n := rapid.IntRange(1, 3).Draw(t, "n")
+			for i := 0; i < n; i++ {
+				s, b := genNumText(t)
+				if s == "unit" {
+					s = "1"
+				}
+				c.Texts = append(c.Texts, s)
+				nt = nt || b
+			}
+			c.Spaces = rapid.SampledFrom([]string{" ", "", "  "}).Draw(t, "sp")
 		case "quoted", "quotedslice":
 			n := 1
 			if c.Shape == "quotedslice" {
